@@ -261,13 +261,15 @@ def run(ctx: Ctx) -> int:
     # pinned sound forms: re-assignment of a declared list from a variable / from a helper returning a list must clone
     cases.append(("reassign-var", [("dm", "a", [1, 2, 3]), ("dm", "b", [7, 8, 9]), ("av", "b", "a"), ("ap", "a", 4), ("rm", "a", 4), ("get", "b", 0)],
                   [("av", "b", "a"), ("ap", "a", 77), ("rm", "a", 77), ("get", "b", -1)], 3))
+    cases.append(("runtime-remove-then-scan", [("dm", "a", [3, 1, 2, 8]), ("rmv", "a", 0, 3, "t1_s"), ("scan", "a", 3), ("ap", "a", 6), ("scan", "a", 4)],
+                  [("len", "a")], 2))
     cases.append(("self-append", [("dm", "a", [4, 5, 6]), ("aps", "a", 0, 4), ("aps", "a", -1, 4), ("get", "a", 4)],
                   [("aps", "a", 0, 4), ("rm", "a", 4), ("len", "a")], 4))
     cases.append(("last-after-remove", [("dm", "a", [0, 5, 0, 7]), ("rm", "a", 0), ("gl", "a", 3), ("rm", "a", 5), ("gl", "a", 2), ("ap", "a", 0), ("rm", "a", 0), ("gl", "a", 2)],
                   [("ap", "a", 0), ("rm", "a", 0), ("len", "a")], 3))
     cases.append(("reassign-call", [("dm", "a", [1, 2, 3]), ("dm", "b", [7, 8, 9]), ("af", "b", "a"), ("ap", "a", 4), ("rm", "a", 4), ("get", "b", 0)],
                   [("af", "b", "a"), ("ap", "a", 77), ("rm", "a", 77), ("get", "b", -1)], 3))
-    for i in range(ctx.n(60, 700)):
+    for i in range(ctx.n(180, 700)):
         owned = rng.random() < 0.8
         s, l = gen_case(rng, owned)
         cases.append(("owned" if owned else "wild", s, l, rng.choice([2, 5, 17])))
